@@ -1,3 +1,5 @@
+import copy
+
 from dataflows import PackageWrapper
 from dataflows.helpers.resource_matcher import ResourceMatcher
 
@@ -8,7 +10,8 @@ def set_primary_key(primary_key, resources=None):
         matcher = ResourceMatcher(resources, package.pkg)
         for resource in package.pkg.descriptor['resources']:
             if matcher.match(resource['name']):
-                resource.setdefault('schema', {})['primaryKey'] = primary_key
+                # (a copy per resource: the resources must not share one key list)
+                resource.setdefault('schema', {})['primaryKey'] = copy.deepcopy(primary_key)
         yield package.pkg
 
         res_iter = iter(package)
